@@ -17,7 +17,7 @@ from mirsym.world import World
 from .runner import Check
 from . import applyk, histk
 
-BOUNDS = {'quick': {'full': [1, 2, 3], 'sampled': (4, 700)}, 'thorough': {'full': [1, 2, 3, 4], 'sampled': (5, 8000)}}
+BOUNDS = {'quick': {'full': [1, 2], 'sampled': (3, 1500)}, 'thorough': {'full': [1, 2, 3], 'sampled': (4, 12000)}}
 
 _tl = threading.local()
 _oracles = []
@@ -94,10 +94,10 @@ def main(tier, seed):
         'every queued content, last one last) for 3 symbolic file ids, roots absent or 0-%d roots with 0-2 files each, 0-%d queued contents; AnalysisHost::apply_change reaches Change::apply on every path' % ((2, 2) if tier == 'quick' else (3, 3)),
         'durability levels are NOT checked: salsa invalidates by the durability an input had before the write, so a durability is a performance hint, not a correctness condition',
         'NOT solver-decided: that derived answers are a function of the inputs (salsa memoisation, interning by (file, index), LRU of parse results). Exercised by the native layer only: every edit history of %s changes '
-        'and %d z3-chosen histories of %d changes from 3 start states of a two-package template (text variants that shift positional ids, change exported names and types, empty and broken files, an optional module, '
+        'and %d z3-chosen histories of %d changes from 4 start states of a two-package template (text variants that shift positional ids, change exported names and types, empty and broken files, an optional module, '
         'the dependency edge, a module moved between src/ and test/), three query schedules each (after every change / only at the end / start and end with the layout re-sent), '
         'compared answer by answer (go-to-definition, references, highlight, hover, completion, prepare-rename at every identifier; diagnostics and semantic highlighting per file) with a fresh host and a fresh host asked in reverse order'
-        % (' and '.join(str(x) for x in B['full']), B['sampled'][1] * 3, B['sampled'][0]),
+        % (' and '.join(str(x) for x in B['full']), B['sampled'][1] * 4, B['sampled'][0]),
         'the order of a references list is not compared (it is a set in the property)',
         'outside: salsa itself, the glas Vfs that produces the Changes (C13 / C15), histories longer than the bound, other workspaces']
     chk.trusted += ['rustc MIR', 'mirsym interpreter (under-constrained mode)', 'z3', 'salsa 0.17 (memoisation of derived queries)']
